@@ -4,11 +4,12 @@ every tagged byte ended up.
 
 Stage i (1-based) of a pipeline, whatever its kind, behaves identically:
   * reads all of its stdin (when it has one); if it is non-empty, writes the line
-    ``I<i>_<sorted input lines, each followed by '_'><i>I`` to stdout,
+    ``I<i>_<input lines in arrival order, each followed by '_'><i>I`` to stdout,
   * writes ``O<i>\\n`` to stdout, then ``E<i>\\n`` to stderr, returns 0.
-Input lines are sorted by the stage so that the order in which two merged streams arrive in a
-pipe (which the property does not fix) never changes what the stage prints.  All tokens are
-[A-Za-z0-9_] only, so `@$()` splitting is just whitespace splitting.
+The order in which two merged streams arrive in a pipe is not fixed by the property, so every
+observed line is canonicalised (canon_line: the items between ``I<i>_`` and ``_<i>I`` are sorted,
+recursively) before it is compared.  All tokens are [A-Za-z0-9_] only, so `@$()` splitting is just
+whitespace splitting.  The script uses shell builtins only (no cat/sort: 3 fewer forks per stage).
 
 Stage kinds: 'ext' = /bin/sh script `st<i>` on a scratch $PATH, 'thr' = threaded callable alias
 `ta<i>`, 'unthr' = callable alias `ua<i>` decorated with xonsh.tools.unthreadable; both aliases
@@ -28,9 +29,8 @@ CASE_TIMEOUT = 5.0  # wall-clock seconds for exec() of one line
 MAX_STAGES = 3
 
 _SH = """#!/bin/sh
-LC_ALL=C
-export LC_ALL
-in=$(/bin/cat | /usr/bin/sort | /usr/bin/tr '\\n' '_')
+in=""
+while IFS= read -r l || [ -n "$l" ]; do in="${{in}}${{l}}_"; done
 if [ -n "$in" ]; then echo "I{i}_${{in}}{i}I"; fi
 echo O{i}
 echo E{i} >&2
@@ -38,6 +38,7 @@ exit 0
 """
 
 _bindir = None
+_warm = None
 
 
 def stage_word(kind, i):
@@ -45,11 +46,51 @@ def stage_word(kind, i):
 
 
 def stage_stdout(i, stdin_lines):
-    """Reference for what stage i prints on stdout given the multiset of lines it read."""
+    """Reference for what stage i prints on stdout given the multiset of (canonical) lines it read."""
     s = ""
     if stdin_lines:
         s += f"I{i}_" + "".join(ln + "_" for ln in sorted(stdin_lines)) + f"{i}I\n"
     return s + f"O{i}\n"
+
+
+def canon_line(line):
+    """Sort, recursively, the items a stage echoed from its stdin: I2_O1_E1_2I -> I2_E1_O1_2I.
+    Lines that are not well-formed stage echoes are returned unchanged."""
+    body = line.rstrip("\n")
+    if not (body.startswith("I") and body.endswith("I") and "_" in body):
+        return line
+    toks = body.split("_")
+    pos = 0
+
+    def parse():
+        nonlocal pos
+        t = toks[pos]
+        if len(t) == 2 and t[0] == "I" and t[1].isdigit():
+            i = t[1]
+            pos += 1
+            kids = []
+            while pos < len(toks) and toks[pos] != i + "I":
+                kids.append(parse())
+            if pos >= len(toks):
+                raise ValueError(line)
+            pos += 1
+            return f"I{i}_" + "".join(k + "_" for k in sorted(kids)) + f"{i}I"
+        pos += 1
+        return t
+
+    try:
+        out = parse()
+        if pos != len(toks):
+            return line
+    except (ValueError, IndexError):
+        return line
+    return out + line[len(body) :]
+
+
+def canon_text(text):
+    if not text or "I" not in text:
+        return text
+    return "".join(canon_line(ln) for ln in text.splitlines(True))
 
 
 def make_bindir():
@@ -72,7 +113,9 @@ def _mk_alias(i):
         if stdin is not None:
             data = stdin.read()
         lines = [ln for ln in data.split("\n") if ln != ""]
-        stdout.write(stage_stdout(i, lines))
+        if lines:
+            stdout.write(f"I{i}_" + "".join(ln + "_" for ln in lines) + f"{i}I\n")
+        stdout.write(f"O{i}\n")
         stdout.flush()
         stderr.write(f"E{i}\n")
         stderr.flush()
@@ -145,6 +188,17 @@ def _live_children():
     return [p for p in out if p != me]
 
 
+def _subreaper():
+    """Orphaned grandchildren are re-parented to the case process, so that it sees (and finally
+    removes) every process the command line left behind."""
+    try:
+        import ctypes
+
+        ctypes.CDLL(None, use_errno=True).prctl(36, 1, 0, 0, 0)  # PR_SET_CHILD_SUBREAPER
+    except Exception:  # noqa: BLE001
+        pass
+
+
 def _child(case, resfd):
     """Runs in a freshly forked process; never returns."""
     import threading
@@ -152,6 +206,7 @@ def _child(case, resfd):
     res = {}
     try:
         os.setsid()
+        _subreaper()
         base = common.scratch_dir("c07case")
         work = os.path.join(base, "w")
         os.makedirs(work)
@@ -189,16 +244,13 @@ def _child(case, resfd):
         sys.stdin = sys.__stdin__ = open(0, "r", closefd=False)
         sys.stdout = sys.__stdout__ = open(1, "w", closefd=False)
         sys.stderr = sys.__stderr__ = open(2, "w", closefd=False)
-        # --- the session
+        # --- the session (loaded once by warm_up() in the parent; only the per-case parts change)
+        from xonsh.built_ins import XSH
         from xonsh.tools import unthreadable
 
-        from .session import load_session
-
-        XSH = load_session(
-            data_dir=base,
-            path=[make_bindir()],
-            env={"XONSH_SUBPROC_RAISE_ERROR": False},
-        )
+        XSH.env["PWD"] = work
+        XSH.env["OLDPWD"] = work
+        XSH.env["XONSH_SUBPROC_RAISE_ERROR"] = False
         rec = {"args": None}
 
         @unthreadable
@@ -258,7 +310,13 @@ def _child(case, resfd):
                 break
             time.sleep(0.005)
         res["extra_threads"] = max(0, threading.active_count() - threads0)
-        res["live_children"] = len(_live_children())
+        left = _live_children()
+        res["live_children"] = len(left)
+        for p in left:
+            try:
+                os.kill(p, signal.SIGKILL)
+            except OSError:
+                pass
         res["term1"] = _read(t1)
         res["term2"] = _read(t2)
         after = _snapshot(work)
@@ -336,6 +394,10 @@ def warm_up():
     from .session import load_session
 
     make_bindir()
+    global _warm
+    if _warm == os.getpid():
+        return
+    _warm = os.getpid()
     d = common.scratch_dir("c07warm")
     load_session(data_dir=d, path=[make_bindir()])
     import xonsh.procs.pipelines  # noqa: F401
@@ -344,6 +406,22 @@ def warm_up():
     import xonsh.procs.readers  # noqa: F401
     import xonsh.procs.specs  # noqa: F401
     import xonsh.tools  # noqa: F401
+
+    trim_memory()
+
+
+def trim_memory():
+    """Validating the PLY tables leaves ~150 MB of freed heap mapped; giving it back halves the
+    cost of the per-case fork."""
+    import gc
+
+    gc.collect()
+    try:
+        import ctypes
+
+        ctypes.CDLL("libc.so.6").malloc_trim(0)
+    except Exception:  # noqa: BLE001
+        pass
 
 
 def run_case(case):
@@ -387,14 +465,12 @@ def run_case(case):
         os.waitpid(pid, 0)
     except OSError:
         pass
-    # anything of the case's session that is still around is removed (and counted)
-    leftovers = [p for p in _session_pids(pid) if p != pid]
-    for p in leftovers:
-        try:
-            os.kill(p, signal.SIGKILL)
-        except OSError:
-            pass
     if timed_out:
+        for p in _session_pids(pid):
+            try:
+                os.kill(p, signal.SIGKILL)
+            except OSError:
+                pass
         return {"hang": True, "hard": True}
     try:
         res = json.loads(b"".join(chunks).decode())
@@ -402,5 +478,4 @@ def run_case(case):
         raise common.ToolError(f"case child died without a result: {case!r}") from None
     if "harness_error" in res:
         raise common.ToolError(f"case child failed: {res['harness_error']}\ncase={case!r}")
-    res["session_leftovers"] = len(leftovers)
     return res
